@@ -85,6 +85,16 @@ CHECKS.update({
               "counter delta are judged by the C06 monitors via TLC."),
         design_ref="§4 C06, §3.4", note="Trusted: reference ciphers/CRC32 (independent of crypt.go), VerifDigest (verif tag), synctest quiescence (synctest.Wait).",
         technique="TLA+ routing decision model + TLC; guaranteed-detectable corruption injection judged by TLC monitors"),
+    "C08": dict(
+        category="model_checking",
+        text=("Cfb.tla transcribes the hand-unrolled CFB loops of crypt.go over a symbolic memory (terms of the free XOR algebra over "
+              "plaintext/ciphertext blocks and applications of the block cipher), with dst==src aliasing as a shared array; TLC checks "
+              "that for every length class the output terms are exactly the textbook full-block CFB recurrence with the fixed IV, for "
+              "encryption and decryption. The harness runs the real code for EVERY length 0..1500, every cipher, in place and into a "
+              "separate buffer, and evaluates the same recurrence with Go's crypto/cipher (and reference stream ciphers / GCM); TLC judges "
+              "the per-length comparison lines. A genuine defect (salsa20, packets shorter than the nonce, separate buffer) was repaired."),
+        design_ref="§4 C08, §6", note="The model is about control structure and buffers for any block cipher; numeric equality is evaluated by the reference implementation. Not a proof about AES.",
+        technique="symbolic TLA+ transcription + TLC; exhaustive per-length comparison with reference ciphers judged by TLC monitors"),
     "C09": dict(
         category="model_checking",
         text=("Frame.tla (output side = Fec!EncodeOp wrapped in the cipher/FEC header arithmetic) is model-checked for SizeFieldRule, "
@@ -103,6 +113,19 @@ CHECKS.update({
               "sizes are judged in the core traces (C10_OutSize)."),
         design_ref="§4 C10", note="A genuine defect (SetMtu accepting values it cannot honour) was repaired; see known_findings.json.",
         technique="TLA+ length arithmetic + TLC; wire-length monitor via TLC trace validation"),
+    "C11": dict(
+        category="model_checking",
+        text=("Listener.tla (routing table address -> session, accept backlog, replacement on a new conversation, application Close) over "
+              "FrameRouting.tla's packet classes is model-checked for Isolation, TableConsistent, OneAcceptPerSession, BacklogBounded, "
+              "ForeignNeverCloses over every interleaving of datagram classes from 2 addresses x 2 conversations with Accept and Close. "
+              "Code -> model: crafted datagrams of every class at a real listener; the exit of Listener.packetInput (hook l.in) and every "
+              "Accept result must equal what the model computes from its own table and backlog, datagram by datagram (ListenerTrace). "
+              "Observable level: several real clients with distinct contents, reconnects, small backlog, slow accept loop and an adversary "
+              "(forged, stale, foreign datagrams at listener and dialled sessions); every byte read on either side and every Accept is judged "
+              "by the ListObs monitors via TLC. One listed known finding (FEC shards of a previous conversation after a reconnect), with a "
+              "deterministic witness."),
+        design_ref="§4 C11", note="Trusted: reference cipher/CRC used to craft valid datagrams; synctest quiescence. A hang of the listener's receive goroutine or an orphan session kills the driver and is reported from the goroutine dump.",
+        technique="TLA+ routing/backlog model + TLC; trace validation of packetInput exits and Accept results; content-isolation monitors via TLC"),
     "C13": dict(
         category="model_checking",
         text=("SessionWait.tla follows the wait loops of Read/WriteBuffers label by label (timer object, the select's timeout channel c, one-slot "
